@@ -285,6 +285,29 @@ fn b64_tokens(rng: &mut Rng, thorough: bool) -> Vec<Vec<u8>> {
         }
         set.insert(t);
     }
+    // non-ASCII characters whose LOW BYTE is the replaced alphabet character (U+0141 for `A`, U+0161 for `a`, U+013D for
+    // `=` …: a decoder that narrows characters to bytes would take them for the alphabet), and non-ASCII white space
+    let canon: Vec<Vec<u8>> = set.iter().filter(|s| s.len() >= 4 && s.iter().all(|b| b.is_ascii_alphanumeric() || b"+/=".contains(b))).take(600).cloned().collect();
+    for (n, s) in canon.iter().enumerate() {
+        let i = rng.below(s.len());
+        for (k, plane) in [0x100u32, 0x2100, 0x10000].into_iter().enumerate() {
+            if (n + k) % 3 != 0 && plane != 0x100 { continue; }
+            if let Some(c) = char::from_u32(plane + s[i] as u32) {
+                let mut t = s[..i].to_vec();
+                t.extend_from_slice(c.to_string().as_bytes());
+                t.extend_from_slice(&s[i + 1..]);
+                set.insert(t);
+            }
+        }
+        if n % 5 == 0 {
+            for ws in ['\u{a0}', '\u{2003}', '\u{3000}', '\u{85}', '\u{2028}', '\u{feff}'] {
+                let mut t = s[..i].to_vec();
+                t.extend_from_slice(ws.to_string().as_bytes());
+                t.extend_from_slice(&s[i..]);
+                set.insert(t);
+            }
+        }
+    }
     // keep only valid UTF-8 (the function takes &str)
     set.into_iter().filter(|s| std::str::from_utf8(s).is_ok()).collect()
 }
